@@ -73,7 +73,11 @@ class World:
         if tid not in self.objs:
             kind = self.kinds[tid]
             base = torch.tensor([float(tid)], dtype=torch.float64)
-            obj = nn.Parameter(base, requires_grad=False) if kind == "p" else base
+            if kind == "pl":
+                # an UninitializedParameter (what a lazy layer holds before its first forward)
+                obj = nn.parameter.UninitializedParameter(requires_grad=False)
+            else:
+                obj = nn.Parameter(base, requires_grad=False) if kind == "p" else base
             self.objs[tid] = obj
             self.rev[id(obj)] = tid
         return self.objs[tid]
@@ -86,7 +90,7 @@ class World:
             self.next_unk += 1
             self.objs[t] = obj
             self.rev[id(obj)] = t
-            self.kinds[t] = "p" if isinstance(obj, nn.Parameter) else "t"
+            self.kinds[t] = ("pl" if isinstance(obj, nn.parameter.UninitializedParameter) else "p") if isinstance(obj, nn.Parameter) else "t"
         return t
 
     def tid_by_storage(self, obj):
@@ -351,7 +355,8 @@ def snapshot(mods, world):
         ps = ["params"] + [ent(n, v) for n, v in m._parameters.items()]
         bs = ["buffers"] + [ent(n, v) for n, v in m._buffers.items()]
         ds = ["plain"] + [ent(n, v) for n, v in m.__dict__.items() if isinstance(v, torch.Tensor)]
-        out.append(["mod", ps, bs, ds])
+        nh = len(m._forward_pre_hooks)
+        out.append(["mod", ps, bs, ds] + ([["hooks", nh]] if nh else []))
     return out
 
 
